@@ -219,7 +219,7 @@ def parse_parser_txt(text):
 def parse_enums(text):
     """-> {CONST: value}"""
     out = {}
-    for m in re.finditer(r"^\s+([A-Z][A-Z0-9_]*) = (0x[0-9A-Fa-f]+|-?\d+),$", text, re.M):
+    for m in re.finditer(r"^\s+([A-Z][A-Z0-9_]*) = (-?0x[0-9A-Fa-f]+|-?\d+),$", text, re.M):
         v = int(m.group(2), 0)
         if m.group(1) in out and out[m.group(1)] != v:
             raise WsError(f"enumerator {m.group(1)} defined twice with different values")
